@@ -132,6 +132,22 @@ def flatten(facts):
                             new_inits.append({"member": bi["member"], "written": bi.get("written", True), "inherited_from": B,
                                               "init": _subst_params(bi["init"], pmap)})
                             done += 1
+                    # the body of the base constructor runs before the leaf's own body
+                    bbody = bc.get("body")
+                    if isinstance(bbody, dict) and ir.stmts(bbody) and isinstance(cf.get("body"), dict) and not cf.get("base_body_from"):
+                        pre = _subst_params(copy.deepcopy(bbody), pmap)
+                        for n in ir.walk(pre):
+                            # locals of the base constructor get ids of their own in the leaf
+                            if n.get("k") == "Ref" and n.get("d") == "local" and isinstance(n.get("id"), int):
+                                n["id"] += 700000
+                            if n.get("k") == "Decl":
+                                for v in n.get("vars", []):
+                                    if isinstance(v.get("id"), int):
+                                        v["id"] += 700000
+                        if not any(x.get("k") == "Return" for x in ir.walk(pre)):
+                            cf["body"] = {"k": "Block", "l": cf["body"].get("l"), "s": ir.stmts(pre) + ir.stmts(cf["body"])}
+                            cf["base_body_from"] = B
+                            done += 1
                 cf["inits"] = new_inits
     return done
 
